@@ -16,9 +16,9 @@ func init() {
 		Prop:  "C08",
 		Title: "JSON and XML documents are represented faithfully in the node tree",
 		Explanation: "Structural necessary conditions of the round trip, decided on the resolved program (SSA, types, backward value flow with access paths): " +
-			"R08a scalar codec agreement: every (text, JSONType) pair the JSON stream reader can hand to CreateJSONNode(TextNode, …) is enumerated (jointly through Phi nodes, helper results and parameters); its text must be strconv.FormatFloat(tok.(float64), f, -1, 64) with f in e/E/f/g/G/x/X, strconv.FormatBool(tok.(bool)), tok.(string) itself, or a constant; for the pair's type flag the scalar decoder reached from J2NodeToInterface (the function that calls strconv.ParseFloat) is executed symbolically (loop-free abstract machine over the JSON predicates, bit masks and type assertions, typed mode = true) and every outcome must be the inverse: ParseFloat(Data,64), ParseBool(Data), Data itself, resp. nil; " +
+			"R08a scalar codec agreement: every (text, JSONType) pair the JSON stream reader can hand to CreateJSONNode(TextNode, …) is enumerated (jointly through Phi nodes, helper results and parameters); its text must be strconv.FormatFloat(tok.(float64), f, -1, 64) with f in e/E/f/g/G/x/X, strconv.FormatBool(tok.(bool)), tok.(string) itself, or a constant; for the pair's type flag the scalar decoder reached from J2NodeToInterface (the function that calls strconv.ParseFloat; helpers that can only hand out []interface{} / map[string]interface{} are container builders judged by R08c) is executed symbolically (loop-free abstract machine over the JSON predicates, bit masks and type assertions, typed mode = true) and every outcome must be the inverse: ParseFloat(Data,64), ParseBool(Data), Data itself, resp. nil; " +
 			"R08b no transformation between decoder and tree: the data and XMLSpecific arguments of every CreateXMLNode/CreateJSONNode call of the stream readers, per call-site context of the node kind, are resolved backwards; element name = (StartElement).Name.Local, attribute name = (StartElement).Attr[].Name.Local, text = (CharData) or Attr[].Value, namespace URI = Space of the same Name (or empty), prefix = lookup of that Space in the reader's table (or Space itself / empty), JSON key = tok.(string), anonymous = \"\"; the namespace table is only updated with Attr[].Value -> Attr[].Name.Local or \"\"; any call, concatenation, arithmetic or lookup on the way is a violation; the node constructors store their own data parameter verbatim and nothing else in the repository writes Node.Data; " +
-			"R08c order and pairing: every node created by a stream reader method is attached exactly by AddChild(<cursor field>, node) (possibly through a helper) and otherwise only stored into the cursor; every []interface{} returned by the converter is built by append in a loop whose cursor is the FirstChild/NextSibling walk of the converted node, each element being the conversion of that cursor; every object entry is stored under the name of the cursor node (Data for JSON nodes, symbolically executed) with the conversion of the same cursor; " +
+			"R08c order and pairing: every node created by a stream reader method is attached exactly by AddChild(<cursor field>, node) (possibly through a helper) and otherwise only stored into the cursor; every []interface{} returned by the converter (directly, or by a helper of package idr the converter hands its node to and whose result it returns - followed with the node parameter bound) is built by append in a loop whose cursor is the FirstChild/NextSibling walk of the converted node, each element being the conversion of that cursor; every object entry (stored by the converter or by such a helper) is stored under the name of the cursor node (Data for JSON nodes, symbolically executed) with the conversion of the same cursor; " +
 			"R08d the copy function and JSONify2 return J2NodeToInterface(their own node parameter, true); " +
 			"R08e every CharData token reaches the creation of a text node carrying it with no branch that depends on its content; " +
 			"R08f the array/object decision for a typed JSON node is executed symbolically for every container flag combination and must be a function of the recorded flag alone.",
